@@ -80,12 +80,11 @@ def _gengroup(rep, mod, fn):
         txt = 'loops over %s, image by %s' % (its[:2], unparse(gp[0])[:50] if gp else '?')
         # the operation handed to g_pos is the one whose translation / rotation are stored
         if gp and len(gp[0].args) == 3 and len(loops) >= 2:
-            g_ = unparse(gp[0].args[0])
+            g_txt = unparse(resolve_local(fn, gp[0].args[0]))
+            g_trans = unparse(ast.Attribute(value=resolve_local(fn, gp[0].args[0]), attr='trans', ctx=ast.Load()))
             stored_trans = next((k.value for k in ctor[0].keywords if k.arg == 'trans'), None)
-            uses_g = False
-            if stored_trans is not None:
-                exprs = [stored_trans] + [a.value for a in walk_local(fn) if isinstance(a, ast.Assign) and unparse(a.targets[0]) == unparse(stored_trans)]
-                uses_g = any(isinstance(n, ast.Name) and n.id == g_ for e in exprs for n in ast.walk(e))
+            # the operation whose images fill the map is the one whose translation is stored (texts with locals written out)
+            uses_g = stored_trans is not None and g_trans in unparse(resolve_local(fn, stored_trans))
             sites = {unparse(gp[0].args[1]), unparse(gp[0].args[2])} == {unparse(loops[0].target), unparse(loops[1].target)}
             cover = 'self.atomindices' in its[0] and 'self.translist' in unparse(resolve_local(fn, loops[1].iter))
             okb = uses_g and sites and cover
@@ -126,7 +125,10 @@ def _imul(rep, mod, fn):
         txt = '%s[image] = self.occ[site] through %s, into a fresh array stored as self.occ' % (tgt, imr)
         ok = fresh and stored and imr.endswith('.indexmap[0]')
         co = [a for a in walk_local(fn) if isinstance(a, ast.Assign) and unparse(a.targets[0]) == 'self.chemorder']
-        okc = len(co) == 1 and pattern.has(co[0], '[[%s[_N_i] for _N_i in _N_c] for _N_c in self.chemorder]' % im, 'expr')
+        okc = False
+        if len(co) == 1:
+            for b in pattern.find(resolve_local(fn, co[0].value), '[[_E_im[_N_i] for _N_i in _N_c] for _N_c in self.chemorder]', 'expr'):
+                okc = okc or unparse(resolve_local(fn, ast.parse(b['_E_im'], mode='eval').body)) == imr
         rep.ob('scatter-action', mod, co[0] if co else fn, 'chemorder mapped through the same index map %s' % im, okc,
                '' if okc else 'the ordered site lists are not mapped through the index map that moved the occupations', engine='owner', qual=q)
     rep.ob('scatter-action', mod, sc[0] if sc else fn, txt, ok,
@@ -174,13 +176,17 @@ def _equiv(rep, mod, fn):
                'operation\'s index map) with the target: an operation that exchanges species, or moves a defect the pre-filter does not '
                'look at, is returned as an equivalence', engine='flow', qual=q)
     # mapping from images
-    gorder = pattern.find(lp, '_N_go = [[_N_im[_N_i] for _N_i in _N_c] for _N_c in self.chemorder]')
     okm = False
-    if gorder:
-        b = gorder[0]
-        okm = unparse(resolve_local(lp, ast.parse(b['_N_im'], mode='eval').body)) == '%s.indexmap[0]' % g_ and (pattern.has(lp, '_N_m.append([_N_gc.index(_N_x) for _N_x in _N_ol])') or
-                                       pattern.has(lp, '[[_N_gc.index(_N_x) for _N_x in _N_ol] for _N_gc, _N_ol in zip(%s, %s.chemorder)]' % (b['_N_go'], other), 'expr')) \
-            and ('zip(%s, %s.chemorder)' % (b['_N_go'], other)) in unparse(lp)
+    for w in wins:
+        val = unparse(resolve_local(lp, w.value))
+        images = '[[%s.indexmap[0][' % g_
+        okm = okm or (images in val and 'in self.chemorder]' in val and '.index(' in val and ('%s.chemorder' % other) in val)
+    if not okm:
+        # the mapping may also be filled by appends to the list that is returned
+        for b in pattern.find(lp, '_N_m.append([_N_gc.index(_N_x) for _N_x in _N_ol])'):
+            src = unparse(resolve_local(lp, ast.parse(b['_N_gc'], mode='eval').body))
+            zips = [unparse(resolve_local(lp, x.iter)) for x in ast.walk(lp) if isinstance(x, ast.For) and b['_N_gc'] in unparse(x.target)]
+            okm = okm or any(('%s.indexmap[0][' % g_) in z and 'self.chemorder' in z and ('%s.chemorder' % other) in z for z in zips)
     rep.ob('mapping-from-images', mod, lp, 'mapping[c][i] = position of %s.chemorder[c][i] among the images of self.chemorder[c]' % other, okm,
            '' if okm else 'the reordering is not looked up among the images of self\'s ordered sites under the accepted operation',
            engine='flow', qual=q)
